@@ -31,7 +31,7 @@ StepOk(r) ==
   LET ot == OutType(r.a)
       saveOk == ot = "" \/ (nsave + 1 # failAt)
       expOut == IF ot = "" THEN <<>> ELSE Ids(OutCalls(hs, ot, saveOk))
-      expIn == IF r.a.a = "recv" THEN Ids(InCalls(hs, IF r.a.ty = "1" THEN "1" ELSE IF r.a.ty = "0" THEN "0" ELSE "D")) ELSE <<>>
+      expIn == IF r.a.a = "recv" THEN Ids(InCalls(hs, IF r.a.ty \in {"1", "0", "d", "v"} THEN r.a.ty ELSE "D")) ELSE <<>>
       tx == ot # "" /\ Transmitted(hs, ot, saveOk)
       outCalls == SelectSeq(r.calls, LAMBDA x : x.dir = "out")
       IsMutator(id) == \E j \in 1..Len(hs) : hs[j].id = id /\ hs[j].mutate
